@@ -1,8 +1,8 @@
 (* C12 — retries are bounded and every run terminates (Layer A part).
    Termination of download_file for every response sequence is the totality of
    the structurally recursive [download_file] itself (no fuel). *)
-From AM.Model Require Import Base Download ReleaseCheck.
-From AM.Lemmas Require Import DownloadLemmas ReleaseLemmas.
+From AM.Model Require Import Base Download Stage ReleaseCheck ReleaseStage.
+From AM.Lemmas Require Import DownloadLemmas ReleaseLemmas ReleaseStageLemmas.
 Open Scope string_scope.
 Open Scope list_scope.
 
@@ -40,3 +40,25 @@ Theorem release_rounds_bounded :
   (ok = true <-> exists j, j < Nat.max 1 retries /\ valid j = true).
 Proof. exact release_rounds_bounded_lemma. Qed.
 Print Assumptions release_rounds_bounded.
+
+(* The release stage as a whole (Model/ReleaseStage.v: the rounds over the downloader model, for EVERY upstream
+   behaviour per round, EVERY verdict function and EVERY previous skel): as many rounds are logged as the stage
+   reports, at most max(1, release_files_retries); and in every round every URL of every release file is
+   requested at most ten times, the transport-level reconnects that precede those answers not counted.  A whole
+   stage ([run_stage], one fetch round for everything else) has the same per-URL bound
+   ([stage_requests_are_bounded]); termination is the totality of these structurally recursive functions. *)
+Theorem release_stage_requests_bounded :
+  forall retries relq u validf skel,
+  let log := release_log (Nat.max 1 retries) 0 relq u validf skel in
+  List.length log = fst (release_stage retries relq u validf skel) /\
+  List.length log <= Nat.max 1 retries /\
+  forall j rs, nth_error log j = Some rs -> round_bounded (u j) rs.
+Proof. exact release_stage_requests. Qed.
+Print Assumptions release_stage_requests_bounded.
+
+Theorem stage_requests_are_bounded :
+  forall u files fs r p k,
+  In r (fst (run_stage false files u fs)) -> In (p, k) (requests_of r) ->
+  k <= max_tries + retries_upto (script_of u p) max_tries.
+Proof. intros u files fs r p k. exact (stage_requests_bounded u files fs r p k). Qed.
+Print Assumptions stage_requests_are_bounded.
